@@ -23,6 +23,9 @@ def setup():
     world.rebind(U, np=symnp, pd=sympd)
     world.rebind(T, np=symnp, pd=sympd, pq=vfs.pq_stub, pa=vfs.pa_stub)
     world.rebind(Q, np=symnp)
+    for m in (B, D, P, U, T):
+        if "Path" in m.__dict__:
+            m.__dict__["Path"] = vfs.VPath
     return B, D, P, U, T, Q
 
 
